@@ -196,6 +196,33 @@ def check_cfg(ctx, rep, f, cfg):
         found = list(aggs_with_paths(t))
         # constants written as aggregates are folded by the evaluator; every raw site must be explained
         n_ok = 0
+        private_b = (not b.reachable) and b.trait is None
+        if private_b and any(classify(agg, path, b, eft_bodies)[0] is None for agg, path in found):
+            # a private helper whose pair depends on what it is given (two word tables zipped, a closure's result): its callers
+            # say what that is - read them with the helper (and its closures) in place
+            owner = b
+            if b.kind == "Closure":
+                par_ = [p_ for p_ in f.live if p_.kind != "Closure" and b.key.startswith(p_.key + "::")]
+                par_.sort(key=lambda p_: -len(p_.key))
+                owner = par_[0] if par_ else b
+            cs_ = [c_ for c_ in callers.get(owner.key, []) if c_.kind != "Closure" and c_ is not owner]
+            if cs_ and (not owner.reachable) and owner.trait is None:
+                all_ok = True; n_ctx = 0
+                for c_ in cs_:
+                    inf_ = {}
+                    try:
+                        tc = H.tree_of(f, c_, "none", inline_extra=through | {owner.ident()}, info=inf_)
+                    except vg.Unsupported:
+                        all_ok = False; break
+                    if b.ident() not in inf_.get("covered", ()) and owner.ident() not in inf_.get("covered", ()):
+                        all_ok = False; break       # the helper was not read in this caller: nothing is established
+                    for agg2, path2 in aggs_with_paths(tc):
+                        n_ctx += 1
+                        if classify(agg2, path2, c_, eft_bodies)[0] is None:
+                            all_ok = False
+                if all_ok and n_ctx:
+                    rep.ok("R1", b.ident() + " (read in its %d caller(s))" % len(cs_) + sfx, detail="every pair it builds there is classified (%d aggregates)" % n_ctx, nontrivial=True)
+                    continue
         for agg, path in found:
             k, why = classify(agg, path, b, eft_bodies)
             inst = "%s: {%s, %s}%s" % (b.ident(), vg.show(agg[2][0])[:60], vg.show(agg[2][1])[:60], sfx)
